@@ -144,6 +144,10 @@ def gen_configs(tier):
             add(kind, 2, 2, maxbad=full, colour="c", lims=(0, 20), colormap="viridis")
             add(kind, 2, 3, maxbad=2, colour="c", normlog=True, colormap="viridis")
             add(kind, 2, 2, xvar=True, maxbad=3, colour="c")
+        # --- colour variable under a logarithmic colour scale
+        add(kind, 2, 2, maxbad=b1, colour="c", normlog=True, colormap="viridis")
+        add(kind, 3, 1, maxbad=b1, colour="c", normlog=True)
+        add(kind, 2, 2, NR=2, maxbad=1, vals="fn", colour="c", normlog=True, colormap="plasma")
         # --- options: limits, reversed / logarithmic colour maps, forced legend / colour bar
         add(kind, 2, 3, maxbad=b1, colour="z", ZPos=[2, 3, 5], lims=(1, 9), colormap="viridis")
         add(kind, 2, 3, maxbad=b1, colour="z", ZPos=[1, 3, 4], normlog=True, colormap="plasma")
@@ -182,6 +186,12 @@ def gen_configs(tier):
         add(kind, 3, 1, maxbad=full, api="auto")
         add(kind, 3, 2, xvar=True, maxbad=b1 if not T else 3, api="auto", colour="z")
         add(kind, 2, 3, maxbad=b1, api="auto", colour="z", colormap="viridis")
+        #     x given per series (2-d), square and non-square; y_z handed over as (points, series) for a 1-d x
+        add(kind, 2, 2, xvar=True, maxbad=b1 if not T else full, whole=True, api="auto")
+        add(kind, 3, 3, xvar=True, maxbad=1 if not T else 2, api="auto", colour="z", colormap="viridis")
+        add(kind, 2, 3, xvar=True, maxbad=b1, api="auto")
+        add(kind, 3, 2, maxbad=b1 if not T else 3, api="auto", ytrans=True)
+        add(kind, 2, 3, maxbad=1, api="auto", ytrans=True, colour="z")
         # --- positions spread over two equally long dimensions, x / err / c stored transposed w.r.t. y
         add(kind, 4, 1, xvar=True, split=(2, 2), maxbad=b2 if not T else full, mix=1)
         add(kind, 4, 2, xvar=True, split=(2, 2), maxbad=b1 if not T else 2, whole=True, mix=2,
@@ -522,6 +532,14 @@ def build(case):
         else:
             xa = np.array(x_coords(cfg))
         ya = np.array(Y[0, 0]) if NZ > 1 else np.array(Y[0, 0, 0])
+        if h.get("ytrans"):
+            # documented: y_z is transposed when its first axis matches x; only unambiguous for NX != NZ
+            assert NZ > 1 and NX != NZ and not cfg["xvar"]
+            ya = np.array(ya.T, order="C")
+        if cfg["xvar"]:
+            assert xa.shape == ya.shape           # per-series x: paired element by element, square or not
+        else:
+            assert NX != NZ                       # 1-d x with a square y_z: orientation of y_z is ambiguous
         b.args = [xa, ya]
         b.frozen = [xa, ya]
         b.ds = None
@@ -1054,7 +1072,8 @@ def run(rep):
         "an auxiliary variable (y_err / x_err, scatter's per-point c) gets NaN / +inf of its own; the point must still be "
         "handed to matplotlib (Axes.scatter itself masks, but keeps, a point whose colour value is NaN), its error bar / colour is then not compared; dtypes of the z coordinate and the colour variable "
         "(uint8..uint64, int32, float32, int64, float64) are varied by the harness under unchanged abstract cases",
-        "auto_lineplot/auto_scatter are not exercised with square y arrays (the documented transposition is ambiguous there)",
+        "auto_lineplot/auto_scatter: a 1-d x is not exercised with a square y_z (orientation of y_z ambiguous there); "
+        "a 2-d x has the shape of y_z (square or not) and pairs with it element by element",
     ]
     cfgs = gen_configs(rep.tier)
     byid = {c["id"]: c for c in cfgs}
